@@ -16,12 +16,27 @@ STAGE 4, PARTIAL.  What is proved here, for EVERY oracle:
 * composition: `Program::optimize` preserves the observable behaviour at EVERY level given the single obligation
   `LaterRoundsOk` (a round that uses the previous analysis preserves behaviour and justifies its `once` marks):
   `optimize_preserves_of_laterRounds'`; the more general `optimize_preserves_of_steps'` for arbitrary invariants.
-NOT proved (open): `LaterRoundsOk`, i.e. the correctness of a round that USES a previous analysis (the analysis
-only enters through `can_ask_parent_for`; the level-1 proof is parametric in the parent interface, but its guards
-have to become "reachable source states"; see `Hpbf/Proofs/OptRb.README.md`).
+* **rounds that USE the previous analysis** (levels 2 and 3): such a round preserves the observable behaviour and
+  justifies its `once` marks under the SEMANTIC hypothesis `PrevAnalSound env prog1 anal` (= `AnalInL`: on the run
+  of the round's input `prog1` from `env`, every loop whose node says `atMostOnce` runs at most once, and at every
+  head of a loop whose node says neither `atMostOnce` nor `hasShift` the pointer and the cells outside `clobbered`
+  have their block-entry values) plus facts that are PROVED for the pipeline (`ShapeL`, `CanonL`):
+  `optimizeOnce_preserves_g'`, `optimizeOnce_onceOk_g'`, `laterRound_ok'` (this discharges `LaterRoundsOk`);
+* `PrevAnalSound` has an EXECUTABLE, PROVED-SOUND test `checkAnalIn N prog1 anal env` (a big-step replay with
+  fuel `N`; `prevAnalSound_of_check'`), and `optimizeCheck N b level orders env` replays the loop of `optimize`
+  and applies the test to the input of every later round:
+  **`optimize_preserves_of_check'`: `Program::optimize` preserves the observable behaviour at EVERY level on every
+  run (program, oracle, environment) for which `optimizeCheck` returns `true`**; `optimize_onceOk_of_check'`: the
+  `once` marks of the result are justified.  `optimize_preserves_of_prevAnalSound'` is the same with the semantic
+  hypothesis.  An instance is checked by `decide +kernel` at the end of this file.
+NOT proved: `PrevAnalSound` for the pipeline itself (that every recorded analysis is sound for the dead-store-
+eliminated program it is used on).  It is a hypothesis about the SEMANTICS of the input program, not about the
+optimizer's internals; when it fails the theorems are silent (this can happen without an optimizer defect: a cell
+that a loop restores to a known constant is not recorded as clobbered, and dead store elimination may remove the
+restoring store when the cell is dead at the loop end).  No new optimizer defect was found by these proofs.
 The older statements with a `ReadsFact` hypothesis (`analSound_after_round1'`, `round1_dse_preserves'`) are kept.
 -/
-import Hpbf.Proofs.OptRbRounds2
+import Hpbf.Proofs.OptRbRounds3
 
 namespace Hpbf
 namespace OptProof
@@ -136,6 +151,121 @@ theorem optimize_preserves_of_laterRounds' (hw : 0 < w) {env : Env} (hL : LaterR
     (h : Opt.optimize b level orders = .ok b') : BehEq b b' env :=
   optimize_preserves_of_laterRounds hw hL hcl h
 
+/-! ### rounds that use the previous analysis -/
+
+example (env : Env) (prog1 : Block w) (anal : OptAnalysis w) :
+    PrevAnalSound env prog1 anal ↔ AnalInL (fun σ => σ = State.init env) prog1.insts anal.subBlocks := Iff.rfl
+
+/-- What `AnalInL` says about one loop (`BlockIn`, `HeadG`: Hpbf/Proofs/OptRbAnalIn.lean). -/
+example (G : State w → Prop) (c sh : Int) (body : List (Instr w)) (o : Bool) (A : OptAnalysis w) :
+    AnalInI G (.loop c sh body o) A ↔
+      ((A.loopAnal.atMostOnce = true → true = true → ∀ σ, G σ → σ.rd c ≠ 0#w →
+          ∀ a, Exec body σ (.fin a) → (a.mov sh).rd c = 0#w) ∧
+       (A.loopAnal.atMostOnce = false → A.hasShift = false → true = true → ∀ σ, G σ →
+          ∀ k σk, Head c sh body σ k σk → σk.ptr = σ.ptr ∧
+            ∀ x, A.clobbered.contains x = false → σk.rd x = σ.rd x)) ∧
+      AnalInL (HeadG G true c sh body) body A.subBlocks := by
+  rw [analInI_loop]
+  constructor
+  · rintro ⟨⟨h1, h2⟩, h3⟩; exact ⟨⟨h1, h2⟩, h3⟩
+  · rintro ⟨⟨h1, h2⟩, h3⟩; exact ⟨⟨h1, h2⟩, h3⟩
+
+theorem prevAnalSound_of_check' {env : Env} {prog1 : Block w} {anal : OptAnalysis w} (N : Nat)
+    (h : checkAnalIn N prog1 anal env = true) : PrevAnalSound env prog1 anal :=
+  prevAnalSound_of_check N h
+
+/-- One round with an arbitrary previous analysis whose top node says `atMostOnce` (what `optimize_once`
+returns), whose nodes fit the blocks of the program (`ShapeL`) and are semantically sound on the run from `env`. -/
+theorem optimizeOnce_preserves_g' (hw : 0 < w) {b : Block w} (hcl : CanonL b.insts) {prevAnal : OptAnalysis w}
+    (hamo : prevAnal.loopAnal.atMostOnce = true) {env : Env} (hs : ShapeL b.insts prevAnal.subBlocks)
+    (ha : AnalInL (fun σ => σ = State.init env) b.insts prevAnal.subBlocks)
+    {os os' : Orders} {b' : Block w} {anal' : OptAnalysis w}
+    (hr : (optimizeOnce b prevAnal).run os = .ok ((b', anal'), os')) : BehEq b b' env :=
+  optimizeOnce_preserves_g hw hcl hamo hs ha hr
+
+theorem optimizeOnce_onceOk_g' (hw : 0 < w) {b : Block w} (hcl : CanonL b.insts) {prevAnal : OptAnalysis w}
+    (hamo : prevAnal.loopAnal.atMostOnce = true) {env : Env} (hs : ShapeL b.insts prevAnal.subBlocks)
+    (ha : AnalInL (fun σ => σ = State.init env) b.insts prevAnal.subBlocks)
+    {os os' : Orders} {b' : Block w} {anal' : OptAnalysis w}
+    (hr : (optimizeOnce b prevAnal).run os = .ok ((b', anal'), os')) : C02Emit.OnceOk b' env :=
+  optimizeOnce_onceOk_g hw hcl hamo hs ha hr
+
+/-- A later round of `optimize`, under `PrevAnalSound`: exactly the obligation `LaterRoundsOk`. -/
+theorem laterRound_ok' (hw : 0 < w) {env : Env} {prog1 : Block w} {anal : OptAnalysis w} {prog2 : Block w}
+    {anal2 : OptAnalysis w} {os os2 : Orders} (hp : AfterDse env prog1 anal)
+    (ha : PrevAnalSound env prog1 anal)
+    (hr : (optimizeOnce prog1 anal).run os = .ok ((prog2, anal2), os2)) :
+    CanonL prog1.insts ∧ BehEq prog1 prog2 env ∧ C02Emit.OnceOk prog2 env :=
+  laterRound_ok hw hp ha hr
+
+/-- The executable test along a run of `optimize`. -/
+example (N : Nat) (b : Block w) (level : Nat) (orders : Orders) (env : Env) :
+    optimizeCheck N b level orders env =
+      (if level = 0 then true
+       else
+         match (optimizeOnce b (topAnalysis [] [])).run orders with
+         | .ok ((prog, anal), os1) => roundsCheck N env (min level 3 - 1) prog anal os1
+         | .error _ => true) := rfl
+
+example (N : Nat) (env : Env) (n : Nat) (prog : Block w) (anal : OptAnalysis w) (os : Orders) :
+    roundsCheck N env (n + 1) prog anal os =
+      (match deadStoreElimination prog anal with
+       | .ok prog1 =>
+         checkAnalIn N prog1 anal env &&
+           (match (optimizeOnce prog1 anal).run os with
+            | .ok ((prog2, anal2), os2) => roundsCheck N env n prog2 anal2 os2
+            | .error _ => true)
+       | .error _ => true) := rfl
+
+theorem optimize_preserves_of_check' (hw : 0 < w) {env : Env} (N : Nat) {b b' : Block w}
+    (hcl : CanonL b.insts) {level : Nat} {orders : Orders}
+    (h : Opt.optimize b level orders = .ok b') (hc : optimizeCheck N b level orders env = true) :
+    BehEq b b' env :=
+  optimize_preserves_of_check hw N hcl h hc
+
+theorem optimize_onceOk_of_check' (hw : 0 < w) {env : Env} (N : Nat) {b b' : Block w}
+    (hcl : CanonL b.insts) {level : Nat} (hl : level ≠ 0) {orders : Orders}
+    (h : Opt.optimize b level orders = .ok b') (hc : optimizeCheck N b level orders env = true) :
+    C02Emit.OnceOk b' env :=
+  optimize_onceOk_of_check hw N hcl hl h hc
+
+theorem optimize_preserves_of_prevAnalSound' (hw : 0 < w) {env : Env}
+    (hA : ∀ (prog1 : Block w) (anal : OptAnalysis w), AfterDse env prog1 anal → PrevAnalSound env prog1 anal)
+    {b b' : Block w} (hcl : CanonL b.insts) {level : Nat} {orders : Orders}
+    (h : Opt.optimize b level orders = .ok b') : BehEq b b' env :=
+  optimize_preserves_of_prevAnalSound hw hA hcl h
+
+/-! ### an instance: multiplication `,>,<[>[>+>+<<-]>>[<<+>>-]<<<-]>>.` at level 3 -/
+
+namespace RoundsEx
+
+def mulSrc : List Kind :=
+  [.inp, .right, .inp, .left, .open, .right, .open, .right, .inc, .right, .inc, .left, .left, .dec, .close,
+   .right, .right, .open, .left, .left, .inc, .right, .right, .dec, .close, .left, .left, .left, .dec, .close,
+   .right, .right, .out]
+
+def mulEnv : Env := { input := some [.byte 3, .byte 2, .eof], sink := true, outOk := none }
+
+def mulBlock : Block 8 := match Ir.parse (w := 8) mulSrc with | .ok b => b | .error _ => { shift := 0, insts := [] }
+
+/-- The three rounds succeed with the empty oracle and the test passes, hence (by the theorem) the level-3 result
+has the observable behaviour of the source on `mulEnv`. -/
+example : ∃ b', Opt.optimize mulBlock 3 [] = .ok b' ∧ BehEq mulBlock b' mulEnv := by
+  have hcl : CanonL mulBlock.insts := by
+    unfold mulBlock
+    split
+    · rename_i b hb; exact parse_canonL hb
+    · rw [CanonL]; trivial
+  have hc : optimizeCheck 400 mulBlock 3 [] mulEnv = true := by decide +kernel
+  cases h : Opt.optimize mulBlock 3 [] with
+  | error e =>
+    have : (match Opt.optimize mulBlock 3 [] with | .ok _ => true | .error _ => false) = true := by
+      decide +kernel
+    rw [h] at this; cases this
+  | ok b' => exact ⟨b', rfl, optimize_preserves_of_check' (by decide) 400 hcl h hc⟩
+
+end RoundsEx
+
 end OptProof
 end Hpbf
 
@@ -152,3 +282,10 @@ end Hpbf
 #print axioms Hpbf.OptProof.analSound_round1'
 #print axioms Hpbf.OptProof.round1_dse_behEq'
 #print axioms Hpbf.OptProof.optimize_preserves_of_laterRounds'
+#print axioms Hpbf.OptProof.optimizeOnce_preserves_g'
+#print axioms Hpbf.OptProof.optimizeOnce_onceOk_g'
+#print axioms Hpbf.OptProof.laterRound_ok'
+#print axioms Hpbf.OptProof.prevAnalSound_of_check'
+#print axioms Hpbf.OptProof.optimize_preserves_of_check'
+#print axioms Hpbf.OptProof.optimize_onceOk_of_check'
+#print axioms Hpbf.OptProof.optimize_preserves_of_prevAnalSound'
